@@ -506,3 +506,25 @@ Fixpoint run_decs (v : variant) (c : chanctx) (ins : list (req * bool)) : list r
   | [] => []
   | (r, a) :: rest => handle_update_req v c r :: run_decs v (post_ctx v c r a) rest
   end.
+
+(* does the handler wait for the state watcher's timeout (10 s) with the machine mutex held?  It does
+   when it reaches stateWatcher.Await and no matching proposal arrives. *)
+Definition waits (v : variant) (c : chanctx) (r : req) : bool :=
+  let m := cx_mach c in
+  let u := req_upd r in
+  negb (cx_stuck c) && negb (cx_vmatch c) &&
+  match snd (step m (OCheckUpdate (u_st u) (u_actor u) (u_sig u) (peer_idx m))), current m with
+  | OK, Some ct =>
+      let reaches (x : vres) : bool :=
+        match x with
+        | VOk => true
+        | VErr => negb (fix_vc_return v)      (* rs0: the first rejection never blocks *)
+        | VPanic => false
+        end in
+      match r with
+      | RUpdate _ => false
+      | RVFund _ init imap => reaches (validate_vfund v (tx_st ct) u init imap)
+      | RVSettle _ fin => reaches (validate_vsettle v (tx_st ct) u fin)
+      end
+  | _, _ => false
+  end.
